@@ -30,9 +30,11 @@ def _fwd2_matrices(m, H, W):
     return F, (None if g is None else g[:, 0].reshape(K, -1).numpy().T)
 
 
-def compose_fwd_vjp2(table, rec, h0, h1):
-    """DWTForward's backward as coded: per level  dx = SUM_bands kron(Bc_band, Br_band) d band"""
-    mode, H, W, J, L = rec["mode"], rec["H"], rec["W"], rec["J"], rec["Lc"]
+def compose_fwd_vjp2(table, rec, taps):
+    """DWTForward's backward as coded: per level  dx = SUM_bands kron(Bc_band, Br_band) d band;
+    taps = dict(col=(h0, h1), row=(h0, h1)) - the column filters act along the vertical axis"""
+    mode, H, W, J = rec["mode"], rec["H"], rec["W"], rec["J"]
+    Lc, Lr = rec["Lc"], rec["Lr"]
     lh, lw = rec["ref_lensH"], rec["ref_lensW"]
     hs, ws = [H] + lh, [W] + lw
     K = lh[-1] * lw[-1] + sum(3 * a * b for a, b in zip(lh, lw))
@@ -45,10 +47,10 @@ def compose_fwd_vjp2(table, rec, h0, h1):
     G = np.zeros((lh[-1] * lw[-1], K))
     G[:, :cols[0][1]] = np.eye(cols[0][1])
     for j in range(J, 0, -1):
-        Bc = table.ab_impl(mode, hs[j - 1], L)
-        Br = table.ab_impl(mode, ws[j - 1], L)
-        c0, c1 = dwtlib.mat(Bc, h0), dwtlib.mat(Bc, h1)
-        r0, r1 = dwtlib.mat(Br, h0), dwtlib.mat(Br, h1)
+        Bc = table.ab_impl(mode, hs[j - 1], Lc)
+        Br = table.ab_impl(mode, ws[j - 1], Lr)
+        c0, c1 = dwtlib.mat(Bc, taps["col"][0]), dwtlib.mat(Bc, taps["col"][1])
+        r0, r1 = dwtlib.mat(Br, taps["row"][0]), dwtlib.mat(Br, taps["row"][1])
         Y = kron2(c0, r0) @ G
         n = lh[j - 1] * lw[j - 1]
         for b in rec["wiring"]["bands"]:
@@ -69,13 +71,18 @@ def forward_vjp_2d(rep, fnd, table, records, pid):
     for r in records:
         if r.get("kind") != "dwt2.fwd" or r["outcome"] != "ok" or not chain_in_table2(table, r):
             continue
-        mode, H, W, J, L = r["mode"], r["H"], r["W"], r["J"], r["Lc"]
+        mode, H, W, J, Lc, Lr = r["mode"], r["H"], r["W"], r["J"], r["Lc"], r["Lr"]
         sizes = ([H] + r["ref_lensH"])[:J] + ([W] + r["ref_lensW"])[:J]
-        cfg = {"mode": mode, "H": H, "W": W, "L": L, "J": J, "odd_any": any(n % 2 for n in sizes)}
+        # every other configuration with equal lengths (and all with unequal ones) uses SEPARATE row and column
+        # filters (the documented 4-tuple): the backward must use each on its own axis
+        four = (Lc != Lr) or bool(rng.integers(0, 2))
+        cfg = {"mode": mode, "H": H, "W": W, "L": Lc, "Lr": Lr, "J": J, "odd_any": any(n % 2 for n in sizes), "separate_row_filters": four}
         case = {"api": "DWTForward.backward", "check": "forward_vjp_2d", "cfg": cfg}
-        h0, h1 = dwtlib.int_taps(rng, L, 3), dwtlib.int_taps(rng, L, 3)
+        h0, h1 = dwtlib.int_taps(rng, Lc, 3), dwtlib.int_taps(rng, Lc, 3)
+        r0t, r1t = (dwtlib.int_taps(rng, Lr, 3), dwtlib.int_taps(rng, Lr, 3)) if four else (h0, h1)
+        taps = {"col": (h0, h1), "row": (r0t, r1t)}
         try:
-            m = pw.DWTForward(J=J, wave=(h0, h1), mode=mode)
+            m = pw.DWTForward(J=J, wave=((h0, h1, r0t, r1t) if four else (h0, h1)), mode=mode)
             F, V = _fwd2_matrices(m, H, W)
         except Exception as e:   # noqa
             if mode == "reflect":
@@ -83,7 +90,7 @@ def forward_vjp_2d(rep, fnd, table, records, pid):
             rep.violation("DWTForward forward/backward raised %r at %s" % (e, cfg), dict(case, observed=repr(e)))
             continue
         rep.validated()
-        rep.nontriv(("fwd_vjp2", mode, H, W, L, J))
+        rep.nontriv(("fwd_vjp2", mode, H, W, Lc, Lr, J, four))
         if V is None:
             rep.violation("DWTForward: input requires grad but receives None at %s" % (cfg,), case)
         elif dwtlib.eq_int(V, F.T):
@@ -91,7 +98,7 @@ def forward_vjp_2d(rep, fnd, table, records, pid):
             if n_ok == 1:
                 rep.sample({"api": "DWTForward.backward", "cfg": cfg, "observed": "VJP matrix == transpose of the forward matrix of the same module"})
         else:
-            G = compose_fwd_vjp2(table, r, h0, h1)
+            G = compose_fwd_vjp2(table, r, taps)
             sig = "equals-impl-model" if dwtlib.eq_int(V, G) else "other"
             f = fnd.match(pid, "DWTForward.backward", cfg, sig)
             if f:
@@ -99,7 +106,7 @@ def forward_vjp_2d(rep, fnd, table, records, pid):
             else:
                 d = dwtlib.diff_entries(V, F.T)
                 rep.violation("DWTForward back-propagation is not the transpose of its forward at %s: %s" % (cfg, d),
-                              dict(case, diff=d, taps=[h0.tolist(), h1.tolist()]))
+                              dict(case, diff=d, taps={k: [t.tolist() for t in v] for k, v in taps.items()}))
     rep.count("forward_vjp_2d_exact_adjoint", n_ok)
 
 
